@@ -6,11 +6,15 @@ st0) followed by advance_to(t) calls f exactly at c0 + (k+1)p <= t with the stat
 returned by the previous call, until f raises or the subscription is disposed;
 in EVERY history no call happens after the disposable was disposed, and a raising
 call disposes it.  Tie (K1): (a) solo subscriptions for generated periods, action
-tables (counting, cycling, raising at the k-th call, disposing themselves), start
+tables (counting, cycling, raising at the k-th call, disposing themselves, and
+calls that TAKE VIRTUAL TIME: the action sleeps 0 / a fraction of the period / the
+period / more than the period, whole and fractional seconds), start
 clocks and targets, advanced in one or several advance_to/advance_by steps, with
 and without a canceller action at a generated dispose time; (b) random histories
 mixing periodic subscriptions with ordinary actions; (c) the observables
-reactivex.interval(p) and reactivex.timer(d, p) subscribed on the scheduler,
+reactivex.interval(p) and reactivex.timer(d, p) subscribed on the scheduler, with
+observers that take virtual time (scheduler.sleep of 0, whole and fractional
+seconds, sometimes more than the period),
 compared with the model's periodic subscription (d == p) resp. with the unrolled
 self-rescheduling chain (d != p).  All on VirtualTimeScheduler, TestScheduler,
 HistoricalScheduler, and through CatchScheduler.  Oracle: an independent Python
@@ -33,40 +37,82 @@ CASE_TY = "(kind * Z * nat * list tcmd) * list oev"
 U = vt.US
 
 
-def table_of(kind, n, e=1):
+def table_of(kind, n, e=1, sleeps=None):
+    """sleeps: list of microsecond amounts; the call on state i sleeps sleeps[i % len] (counting tables)"""
+    def nx(i, st):
+        r = ["next", [], st]
+        if sleeps:
+            r.append(sleeps[i % len(sleeps)])
+        return r
     if kind == "count":
-        return [[[i, ["next", [], i + 1]] for i in range(60)], ["raise", [], 99]]
+        return [[[i, nx(i, i + 1)] for i in range(60)], ["raise", [], 99]]
     if kind == "cycle":
-        return [[[i, ["next", [], (i + 1) % n]] for i in range(n)], ["next", [], 0]]
+        return [[[i, nx(i, (i + 1) % n)] for i in range(n)], ["next", [], 0]]
     if kind == "raise":          # raises at the n-th call (0-based)
-        return [[[i, ["next", [], i + 1]] for i in range(n)], ["raise", [50 + n], e]]
+        return [[[i, nx(i, i + 1)] for i in range(n)], ["raise", [50 + n], e]]
     if kind == "disp":           # disposes its own subscription at the n-th call
-        return [[[i, ["next", [], i + 1]] for i in range(n)], ["disp", [60 + n]]]
+        return [[[i, nx(i, i + 1)] for i in range(n)], ["disp", [60 + n]]]
     if kind == "jump":           # arbitrary state threading
-        return [[[0, ["next", [], 7]], [7, ["next", [], -3]], [-3, ["next", [], 7]]], ["next", [], 0]]
+        return [[[0, nx(0, 7)], [7, nx(1, -3)], [-3, nx(2, 7)]], ["next", [], 0]]
     raise ValueError(kind)
 
 
-def expected_calls(table, p, c0, st0, t, dispose_at=None):
-    """the statement, computed directly: k-th call at c0 + (k+1)p <= t with the state
-    returned by the previous call; none after a raise / self-dispose / dispose time"""
-    entries = {int(k): v for k, v in table[0]}
-    out, st, k = [], st0, 0
-    raised = None
-    while p > 0:
-        at = c0 + (k + 1) * p
-        # a canceller due at the same instant runs first unless the call was enqueued before it
-        # (only the first call is: FIFO among equal due times, C28)
-        if at > t or (dispose_at is not None and (at > dispose_at or (at == dispose_at and k > 0))):
-            break
-        out.append((st, at))
-        r = entries.get(st, table[1])
-        if r[0] != "next":
-            raised = r[2] if r[0] == "raise" else None
-            break
-        st = r[2]
-        k += 1
-    return out, raised
+class Spec:
+    """The statement, computed directly (never the model): a periodic subscription made at
+    clock c0 has its first call due at c0 + p; a call starts when it is due (or, if the clock
+    is already past that, at once), is handed the state returned by the previous call, and
+    the next call is due ONE PERIOD AFTER THE START of this one however long it took
+    (elapsed-time compensation); so calls are exactly p apart unless one takes longer than
+    p.  No call after the action raised or the subscription was disposed.  A canceller
+    action due at D competes by (due time, scheduling order) as C28 says."""
+
+    def __init__(self, table, p, c0, st0, dispose_at=None):
+        self.entries = {int(k): v for k, v in table[0]}
+        self.default = table[1]
+        self.p, self.clk, self.st = p, c0, st0
+        self.due = c0 + p
+        self.k = 0
+        self.alive = True
+        self.cancel_due = dispose_at      # canceller scheduled after the first call, before all later ones
+        self.stuck = False
+        self.calls, self.raised = [], []
+
+    def advance_to(self, target):
+        if self.stuck or target <= self.clk:
+            return
+        while True:
+            tick = self.alive and self.due <= target
+            canc = self.cancel_due is not None and self.cancel_due <= target
+            if not tick and not canc:
+                break
+            if tick and canc:
+                tick_first = self.due < self.cancel_due or (self.due == self.cancel_due and self.k == 0)
+            else:
+                tick_first = tick
+            if not tick_first:
+                self.clk = max(self.clk, self.cancel_due)
+                self.cancel_due = None
+                self.alive = False
+                continue
+            start = max(self.clk, self.due)
+            self.calls.append((self.st, start))
+            r = self.entries.get(self.st, self.default)
+            self.clk = start
+            if r[0] != "next":
+                self.alive = False
+                if r[0] == "raise":
+                    self.raised.append(r[2])
+                    self.stuck = True            # the exception leaves advance_to (see C29's note)
+                    return
+                continue
+            self.clk = start + (r[3] if len(r) > 3 else 0)
+            self.due = start + self.p
+            self.st = r[2]
+            self.k += 1
+        self.clk = max(self.clk, target)
+
+    def advance_by(self, d):
+        self.advance_to(self.clk + d)
 
 
 def oracle_periodic(trace, periods):
@@ -100,9 +146,15 @@ def solo_cases(tier, rng):
                 for (kind, n) in kinds:
                     for c0 in (0, 200 * unit):
                         t_rel = rng.choice([p * 5, p * 5 + 1, p * 3 - 1, 1, p, 13])
-                        tab = table_of(kind, n, e=rng.choice([0, 1, 2]))
+                        P = p * unit
+                        sl = rng.choice([None, None, "frac", "frac", "mixed", "over"])
+                        sleeps = (None if sl is None else
+                                  [P // 4, 0, P // 2, P, 3 * P // 4] if sl == "frac" else
+                                  [250000, 2500000, 0, 1000000, P] if sl == "mixed" else
+                                  [P // 2, P + P // 2, P // 4, 2 * P, 0])
+                        tab = table_of(kind, n, e=rng.choice([0, 1, 2]), sleeps=sleeps)
                         mode = rng.choice(["one", "steps", "cancel", "catch"])
-                        out.append((world, unit, c0, p * unit, tab, 0, t_rel * unit, mode, kind))
+                        out.append((world, unit, c0, P, tab, 0, t_rel * unit, mode, kind + ("" if sl is None else "+sleep-" + sl)))
     return out
 
 
@@ -149,8 +201,16 @@ def run(chk):
         hist["solo_mode"][mode] = hist["solo_mode"].get(mode, 0) + 1
         hist["table"][kind] = hist["table"].get(kind, 0) + 1
         calls = [(e[2], e[3]) for e in trace if e[0] == "tick"]
-        exp, raised = expected_calls(tab, p, c0, st0, c0 + t_rel, dispose_at)
+        spec = Spec(tab, p, c0, st0, dispose_at)
+        for tc in h:
+            if tc[0] == "advto":
+                spec.advance_to(tc[1])
+            elif tc[0] == "advby":
+                spec.advance_by(tc[1])
+        exp, raised = spec.calls, (spec.raised[0] if spec.raised else None)
         hist["calls"] += len(calls)
+        hist["calls_taking_time"] = hist.get("calls_taking_time", 0) + sum(1 for e in trace if e[0] == "sleep" and e[1] > 0)
+        hist["overruns"] = hist.get("overruns", 0) + sum(1 for e in trace if e[0] == "sleep" and e[1] > p)
         hist["raised"] += raised is not None
         hist["disposed"] += dispose_at is not None
         if len(calls) >= 2:
@@ -178,7 +238,7 @@ def run(chk):
         world = rng.choice(vt.WORLDS)
         unit = rng.choice([U, 1000])
         g = vt.Gen(rng, unit=unit, allow=("cancel", "stop", "sleep", "pcancel", "note"), periodic_p=0.25,
-                   raise_p=rng.choice([0.0, 0.05]))
+                   raise_p=rng.choice([0.0, 0.05]), sleep_p=rng.choice([0.0, 0.5]))
         h = g.history(world, rng.randrange(2, 9), bounded_only=True)
         obs, trace = vt.run_impl(world, 0, h, timeout=10.0)
         chk.cov["evaluations"] += 1
@@ -194,28 +254,46 @@ def run(chk):
                                               "what_failed": "no return within the watchdog"})
         gal.append((f"({vt.KIND[world]}, 0, 3000%nat, {vt.g_history(h)})", vt.g_obs(obs)))
 
-    # ---- (c) interval / timer observables ---------------------------------------
+    # ---- (c) interval / timer observables, with observers that take virtual time ---
     for world in vt.WORLDS:
         for (d, p, t_rel, disp) in [(3, 3, 16, None), (1, 1, 5, None), (2, 2, 9, 5), (5, 5, 4, None),
                                     (1, 3, 11, None), (4, 2, 13, None), (0, 2, 7, None), (2, 5, 30, 14)]:
             for c0 in (0, 200 * U):
-                r = run_observable(world, c0, d * U, p * U, t_rel * U, None if disp is None else disp * U)
-                chk.cov["evaluations"] += 1
-                hist["interval" if d == p else "timer_d_p"] += 1
-                emitted, obs, h = r
-                exp = []
-                k = 0
-                while c0 + d * U + k * p * U <= c0 + t_rel * U and (disp is None or c0 + d * U + k * p * U < c0 + disp * U):
-                    exp.append((k, c0 + d * U + k * p * U))
-                    k += 1
-                if emitted != exp:
-                    fail(100, "interval-timer-emissions-differ",
-                         {"world": world, "c0": c0, "observable": f"timer({d} s, {p} s)" if d != p else f"interval({p} s)",
-                          "dispose_at_rel": disp, "emitted (value, clock)": emitted, "expected": exp,
-                          "what_failed": f"emitted {emitted[:6]} expected {exp[:6]}"})
-                if len(emitted) >= 2:
-                    nontrivial.add(json.dumps([world, c0, "obs", d, p, t_rel, disp]))
-                gal.append((f"({vt.KIND[world]}, {vt.gz(c0)}, 400%nat, {vt.g_history(h)})", vt.g_obs(obs)))
+                for sl in (None, "frac", "mixed"):
+                    P = p * U
+                    if sl is None:
+                        sleeps = None
+                    elif d != p:          # timer(d, p): observers that fit into the period
+                        sleeps = [P // 4, 0, P // 2, 250000 if P >= 250000 else 0, P]
+                    elif sl == "frac":
+                        sleeps = [250000, P // 2, 0, 3 * P // 4, P]
+                    else:                 # whole and fractional seconds, one overrun
+                        sleeps = [P // 4, 2500000 if P >= 3 * U else P // 2, P + P // 2, 0, 1000000 if P >= U else 0]
+                    emitted, obs, h = run_observable(world, c0, d * U, P, t_rel * U,
+                                                     None if disp is None else disp * U, sleeps)
+                    chk.cov["evaluations"] += 1
+                    hist["interval" if d == p else "timer_d_p"] += 1
+                    if d == p:
+                        tab = [[[i, ["next", [], i + 1] + ([sleeps[i % len(sleeps)]] if sleeps else [])]
+                                for i in range(80)], ["raise", [], 99]]
+                        spec = Spec(tab, P, c0, 0, None if disp is None else c0 + disp * U)
+                        spec.advance_to(c0 + t_rel * U)
+                        exp = spec.calls
+                    else:
+                        exp, k = [], 0
+                        while c0 + d * U + k * P <= c0 + t_rel * U and (disp is None or c0 + d * U + k * P < c0 + disp * U):
+                            exp.append((k, c0 + d * U + k * P))
+                            k += 1
+                    if emitted != exp:
+                        fail(100, "interval-timer-emissions-differ",
+                             {"world": world, "c0": c0,
+                              "observable": f"timer({d} s, {p} s)" if d != p else f"interval({p} s)",
+                              "observer_sleeps_us": sleeps, "dispose_at_rel": disp,
+                              "emitted (value, clock)": emitted, "expected": exp,
+                              "what_failed": f"emitted {emitted[:6]} expected {exp[:6]}"})
+                    if len(emitted) >= 2:
+                        nontrivial.add(json.dumps([world, c0, "obs", d, p, t_rel, disp, sl]))
+                    gal.append((f"({vt.KIND[world]}, {vt.gz(c0)}, 400%nat, {vt.g_history(h)})", vt.g_obs(obs)))
 
     failures.sort(key=lambda f: f[0])
     seen = set()
@@ -257,7 +335,7 @@ def run(chk):
                      "period > 0 for the closed form (period 0 or negative keeps advance_to busy forever by design)"])
 
 
-def run_observable(world, c0, d, p, t_rel, disp):
+def run_observable(world, c0, d, p, t_rel, disp, sleeps=None):
     """subscribe reactivex.timer(d, p) (interval when d == p) on the real scheduler at clock c0,
     optionally dispose the subscription at c0+disp, advance to c0+t_rel.  Returns the emissions
     (value, clock), the observation list in the model's alphabet and the equivalent model history."""
@@ -269,6 +347,8 @@ def run_observable(world, c0, d, p, t_rel, disp):
 
     def on_next(v):
         emitted.append((v, w.us(s.clock)))
+        if sleeps and sleeps[v % len(sleeps)]:
+            s.sleep(w.rel_(sleeps[v % len(sleeps)]))      # the observer takes virtual time
     src = reactivex.interval(w.rel_(p)) if d == p else reactivex.timer(w.rel_(d), w.rel_(p))
     sub = src.subscribe(on_next, scheduler=s)
     obs.append(("clock", w.us(s.clock)))
@@ -282,7 +362,8 @@ def run_observable(world, c0, d, p, t_rel, disp):
     n = len(emitted)
     if d == p:
         # interval = schedule_periodic(p, count -> on_next(count); count + 1, 0)
-        tab = [[[i, ["next", [], i + 1]] for i in range(n + 3)], ["raise", [], 99]]
+        tab = [[[i, ["next", [], i + 1] + ([sleeps[i % len(sleeps)]] if sleeps else [])]
+                for i in range(n + 3)], ["raise", [], 99]]
         h = [["do", ["periodic", p, tab, 0]]]
         if disp is not None:
             h.append(["do", ["sched", ["abs", c0 + disp], -1, [["pcancel", 0]]]])
@@ -295,7 +376,8 @@ def run_observable(world, c0, d, p, t_rel, disp):
     def chain(k):
         if k > n + 1:
             return []
-        return [["sched", ["abs", c0 + d + k * p], k, chain(k + 1)]]
+        body = ([["sleep", sleeps[k % len(sleeps)]]] if sleeps and sleeps[k % len(sleeps)] else []) + chain(k + 1)
+        return [["sched", ["abs", c0 + d + k * p], k, body]]
     h = [["do", chain(0)[0]]]
     seq = [("clock", c0)]
     if disp is not None:
